@@ -122,6 +122,29 @@ theorem stamped_new (connId now T : Nat) (hT : now ≤ T) : Stamped T (FLink.new
   bitrateT := hT
   queue := fun it hit => by cases hit
 
+/-- A link freshly constructed by a reload at clock `now`. -/
+theorem stamped_newUplink (connId addr now T : Nat) (hT : now ≤ T) :
+    Stamped T (FLink.newUplink connId addr now : FLink F) where
+  lastSent := OLe_none T
+  lastReceived := OLe_none T
+  proofMs := Nat.zero_le _
+  rttMeas := Nat.zero_le _
+  log := fun it hit => by cases hit
+  cong := congStamped_new T
+  warming := fun p e hp => by cases hp
+  lastKeepaliveSent := OLe_none T
+  kaSentMs := Nat.zero_le _
+  rttMeasT := Nat.zero_le _
+  lastAttempt := Nat.zero_le _
+  established := Nat.zero_le _
+  flush := Nat.zero_le _
+  qualAt := Nat.zero_le _
+  latched := Nat.zero_le _
+  recovery := Nat.zero_le _
+  pullMark := OLe_none T
+  bitrateT := hT
+  queue := fun it hit => by cases hit
+
 section ops
 variable {now T : Nat}
 
@@ -522,6 +545,7 @@ theorem stamped_closed (hT : now ≤ T) (arm : Arm) (classic : Bool) :
     intro c hc
     obtain ⟨l, hl, rfl⟩ := List.mem_map.1 hc
     exact stamped_toSLink l (h l hl)
+  fresh := fun _ id a => stamped_newUplink id a now T hT
 
 end ops
 
